@@ -578,8 +578,29 @@ def check_names(ctx, rep):
     if f is not None:
         unz = [st for st in ast.walk(f) if isinstance(st, ast.Assign) and isinstance(st.targets[0], ast.Tuple) and ast.unparse(st.value).replace(' ', '') == f"zip(*{f.args.args[0].arg})"]
         names = [e.id for e in unz[0].targets[0].elts] if unz else []
-        pd = [st for st in ast.walk(f) if isinstance(st, ast.Assign) and isinstance(st.targets[0], ast.Name) and st.targets[0].id == 'patterns']
-        ok = bool(names) and len(pd) == 1 and ast.unparse(pd[0].value).replace(' ', '').startswith(f"dict(zip({names[0]},")
+        # the dictionary that is returned pairs the names that came with the sequences with the compressed rows: dict(zip(names, rows)), {n: r for n, r in zip(names, rows)},
+        # or rows stored under `d[name]` in a loop over zip(names, …) / enumerate(names)
+        ret = [r.value for r in ast.walk(f) if isinstance(r, ast.Return) and r.value is not None]
+        rname = ret[0].elts[0].id if ret and isinstance(ret[0], ast.Tuple) and ret[0].elts and isinstance(ret[0].elts[0], ast.Name) else None
+        pd = [st for st in ast.walk(f) if isinstance(st, ast.Assign) and isinstance(st.targets[0], ast.Name) and st.targets[0].id == rname]
+
+        def zipped_with_names(z):
+            return isinstance(z, ast.Call) and isinstance(z.func, ast.Name) and z.func.id == 'zip' and z.args and isinstance(z.args[0], ast.Name) and names and z.args[0].id == names[0]
+        ok = False
+        if names and len(pd) == 1:
+            v = pd[0].value
+            if isinstance(v, ast.Call) and isinstance(v.func, ast.Name) and v.func.id in ('dict', 'OrderedDict') and len(v.args) == 1 and zipped_with_names(v.args[0]):
+                ok = True
+            elif isinstance(v, ast.DictComp) and len(v.generators) == 1 and zipped_with_names(v.generators[0].iter) and isinstance(v.generators[0].target, ast.Tuple) \
+                    and isinstance(v.key, ast.Name) and isinstance(v.generators[0].target.elts[0], ast.Name) and v.key.id == v.generators[0].target.elts[0].id:
+                ok = True
+            elif (isinstance(v, ast.Dict) and not v.keys) or (isinstance(v, ast.Call) and isinstance(v.func, ast.Name) and v.func.id in ('dict', 'OrderedDict') and not v.args):
+                for lp in [n for n in ast.walk(f) if isinstance(n, ast.For) and zipped_with_names(n.iter) and isinstance(n.target, ast.Tuple) and isinstance(n.target.elts[0], ast.Name)]:
+                    key = lp.target.elts[0].id
+                    sts = [st for st in ast.walk(lp) if isinstance(st, ast.Assign) and isinstance(st.targets[0], ast.Subscript) and isinstance(st.targets[0].value, ast.Name)
+                           and st.targets[0].value.id == rname]
+                    if sts and all(isinstance(st.targets[0].slice, ast.Name) and st.targets[0].slice.id == key for st in sts):
+                        ok = True
     rep.check('C02.N', 'compress::patterns-keyed-by-taxon-name', ok, where(sm, f) if f is not None else '', None,
               "compress must key the compressed columns by the taxon name that came with each sequence")
     # (e') a pattern stands for columns with the very same symbols only (which column of a merged set is kept depends on the order of the sites / taxa)
